@@ -23,6 +23,8 @@ pub struct Failure {
     pub driver: &'static str,
 }
 
+pub const DISTINCT_CAP: usize = 60_000_000;
+
 /// Statistics of a check run for one property (merged over worlds, configs, drivers).
 pub struct Stats {
     pub prop: String,
@@ -71,7 +73,12 @@ impl Stats {
         self.lib_calls += o.lib_calls;
         self.nontrivial_seen += o.nontrivial_seen;
         for h in o.nontrivial {
-            self.nontrivial.insert(h);
+            // exact de-duplication up to a cap; beyond it the count stays a conservative lower bound
+            if self.nontrivial.len() < DISTINCT_CAP {
+                self.nontrivial.insert(h);
+            } else if !self.notes.iter().any(|n| n.starts_with("distinct_nontrivial is capped")) {
+                self.notes.push(format!("distinct_nontrivial is capped at {} (exact de-duplication stops there; the real number is larger, see nontrivial_evaluations)", DISTINCT_CAP));
+            }
         }
         let names = world.class_names();
         for (i, c) in o.class_hist.iter().enumerate() {
